@@ -51,7 +51,10 @@ impl MemoHeader {
             self.revisions.changed_at,
         );
 
-        if self.revisions.changed_at > revisions.changed_at {
+        // A memo that was computed as part of a cycle is never backdated (see `can_backdate`),
+        // so its `changed_at` may legitimately be newer than that of a later re-execution
+        // outside of the cycle that produces the same value.
+        if self.revisions.changed_at > revisions.changed_at && !self.was_cycle_participant() {
             report_backdate_violation(index, self.revisions.changed_at, revisions.changed_at);
         }
 
